@@ -151,3 +151,5 @@ func bytesEq(a, b []byte) bool {
 	}
 	return true
 }
+
+func bufioReader(c *vConn) *bufio.Reader { return bufio.NewReader(c) }
